@@ -213,6 +213,103 @@ theorem admit_sound (token2022 native freeze badge : Bool) (tlv : List Nat)
 theorem badge_spec (o c m : Bool) : isTokenBadgeInitialized o c m = true ↔ (o = true ∧ c = true ∧ m = true) := by
   unfold isTokenBadgeInitialized; cases o <;> cases c <;> cases m <;> simp
 
+/-- what a successful `Whirlpool::initialize` records -/
+theorem init_pool_fields (ma mb price ts fr pr : Nat) (p : PoolD)
+    (h : initializePoolChecks ma mb price ts fr pr = .ok p) :
+    p.price = price ∧ p.ts = ts ∧ p.feeRate = fr ∧ p.protoRate = pr := by
+  unfold initializePoolChecks at h
+  split at h
+  · cases h
+  · split at h
+    · cases h
+    · split at h
+      · cases h
+      · cases hf : updateFeeRate fr with
+        | error e => rw [hf] at h; cases h
+        | ok f =>
+          rw [hf] at h
+          cases hp : updateProtocolFeeRate pr with
+          | error e => rw [hp] at h; cases h
+          | ok q =>
+            rw [hp] at h
+            simp only [Except.ok.injEq] at h
+            subst h
+            exact ⟨rfl, rfl, (fee_rate_bound _ _ hf).1, (protocol_fee_rate_bound _ _ hp).1⟩
+
+theorem verify_mint_sound (m : MintIn) (u : Unit) (hm : verifySupportedTokenMint m = .ok u) :
+    isSupportedTokenMint m.token2022 m.native m.freeze (badgeInit m.badge) m.tlv = .ok true := by
+  unfold verifySupportedTokenMint at hm
+  split at hm
+  · cases hm
+  · cases hm
+  · assumption
+
+/-- a badge slot counts only when it holds the program-owned badge of exactly this config and mint -/
+theorem badgeInit_spec (k : Nat) : badgeInit k = true ↔ (k = 1 ∨ k = 5) := by
+  unfold badgeInit isTokenBadgeInitialized
+  by_cases h1 : k = 1 ∨ k = 5
+  · simp [h1]
+  · rw [if_neg h1]
+    by_cases h3 : k = 3
+    · simp [h3]
+    · rw [if_neg h3]
+      by_cases h4 : k = 4
+      · simp [h4]
+      · rw [if_neg h4]; simp [h1]
+
+/-- C19 at instruction level: whenever `initialize_pool_v2` creates a pool, the mint keys are in canonical
+    order, the price is within the protocol bounds, the spacing is the fee tier's and non-zero, fee and
+    protocol fee rates are the tier's / config's defaults and within their maxima, and BOTH mints pass the
+    admission table with the badge that really sits at the badge address of (config, mint). -/
+theorem init_pool_v2_sound (keyA keyB : Nat) (a b : MintIn) (price ts tierTs fee proto : Nat) (p : PoolD) (nt : Bool)
+    (h : initializePoolV2 keyA keyB a b price ts tierTs fee proto = .ok (p, nt)) :
+    keyA < keyB ∧ p.price = price ∧ MIN_SQRT_PRICE_X64 ≤ price ∧ price ≤ MAX_SQRT_PRICE_X64 ∧
+    p.ts = ts ∧ tierTs = ts ∧ ts ≠ 0 ∧ p.feeRate = fee ∧ fee ≤ MAX_FEE_RATE ∧
+    p.protoRate = proto ∧ proto ≤ MAX_PROTOCOL_FEE_RATE ∧ p.tick = ti price ∧ a.badge ≠ 2 ∧ b.badge ≠ 2 ∧
+    isSupportedTokenMint a.token2022 a.native a.freeze (badgeInit a.badge) a.tlv = .ok true ∧
+    isSupportedTokenMint b.token2022 b.native b.freeze (badgeInit b.badge) b.tlv = .ok true := by
+  unfold initializePoolV2 at h
+  split at h
+  · cases h
+  · rename_i hb
+    split at h
+    · cases h
+    · rename_i hts
+      split at h
+      · cases h
+      · rename_i _ ha
+        split at h
+        · cases h
+        · rename_i _ hbb
+          split at h
+          · cases h
+          · rename_i q hq
+            simp only [Except.ok.injEq, Prod.mk.injEq] at h
+            obtain ⟨hpq, _⟩ := h
+            subst hpq
+            obtain ⟨h1, h2, h3, h4, h5, h6, h7⟩ := init_pool_bounds _ _ _ _ _ _ _ hq
+            obtain ⟨f1, f2, f3, f4⟩ := init_pool_fields _ _ _ _ _ _ _ hq
+            rw [f1] at h2 h3 h7
+            rw [f2] at h4
+            rw [f3] at h5
+            rw [f4] at h6
+            exact ⟨h1, f1, h2, h3, f2, by omega, h4, f3, h5, f4, h6, h7,
+              fun hh => hb (Or.inl hh), fun hh => hb (Or.inr hh),
+              verify_mint_sound a _ ha, verify_mint_sound b _ hbb⟩
+
+-- Non-vacuity: a Token-2022 mint with a permanent delegate makes a pool only with its badge (kind 1), not with
+-- another config's data at the address (kind 3), a foreign-owned copy (kind 4) or nothing (kind 0)
+example :
+    let pd : Nat → MintIn := fun k => { token2022 := true, native := false, freeze := false, tlv := [12, 0, 0, 0], badge := k }
+    let plain : MintIn := { token2022 := false, native := false, freeze := true, tlv := [], badge := 0 }
+    (initializePoolV2 1 2 (pd 1) plain (2^64) 64 64 3000 300).toOption.isSome = true ∧
+    (initializePoolV2 1 2 (pd 0) plain (2^64) 64 64 3000 300).toOption.isSome = false ∧
+    (initializePoolV2 1 2 (pd 3) plain (2^64) 64 64 3000 300).toOption.isSome = false ∧
+    (initializePoolV2 1 2 (pd 4) plain (2^64) 64 64 3000 300).toOption.isSome = false ∧
+    (initializePoolV2 1 2 (pd 2) plain (2^64) 64 64 3000 300).toOption.isSome = false ∧
+    (initializePoolV2 2 1 (pd 1) plain (2^64) 64 64 3000 300).toOption.isSome = false ∧
+    (initializePoolV2 1 2 (pd 1) plain (2^64) 64 8 3000 300).toOption.isSome = false := by decide +kernel
+
 -- Non-vacuity: TransferFeeConfig is admitted; PermanentDelegate only with a badge; NonTransferable never;
 -- an unknown extension number and a truncated entry are rejected / error
 example : (isSupportedTokenMint true false false false [1, 0, 2, 0, 7, 7]).toOption = some true ∧
